@@ -16,6 +16,8 @@ use surf_n_term::{
 // ---------- a terminal that only reports size and capabilities ----------
 pub struct NullTerm {
     pub caps: TerminalCaps,
+    /// pixels per cell (height, width)
+    pub ppc: (usize, usize),
 }
 
 impl std::io::Write for NullTerm {
@@ -44,7 +46,7 @@ impl Terminal for NullTerm {
         self
     }
     fn size(&self) -> Result<TerminalSize, Error> {
-        Ok(TerminalSize { cells: Size::new(24, 80), pixels: Size::new(24 * PPC_H, 80 * PPC_W) })
+        Ok(TerminalSize { cells: Size::new(24, 80), pixels: Size::new(24 * self.ppc.0, 80 * self.ppc.1) })
     }
     fn position(&mut self) -> Result<Position, Error> {
         Ok(Position::origin())
@@ -59,7 +61,11 @@ impl Terminal for NullTerm {
 }
 
 pub fn mk_ctx(glyphs: bool) -> ViewContext {
-    let term = NullTerm { caps: TerminalCaps { glyphs, ..TerminalCaps::default() } };
+    mk_ctx_ppc(glyphs, PPC_H, PPC_W)
+}
+
+pub fn mk_ctx_ppc(glyphs: bool, ppc_h: usize, ppc_w: usize) -> ViewContext {
+    let term = NullTerm { caps: TerminalCaps { glyphs, ..TerminalCaps::default() }, ppc: (ppc_h, ppc_w) };
     ViewContext::new(&term).expect("ctx")
 }
 
@@ -159,7 +165,9 @@ impl Defs {
                     .collect()
             })
             .unwrap_or_default();
-        Defs { glyphs, images, ctx: mk_ctx(input["glyphs"].as_bool().unwrap_or(true)) }
+        let ppc = vusizes(&input["ppc"]);
+        let ctx = if ppc.len() == 2 { mk_ctx_ppc(input["glyphs"].as_bool().unwrap_or(true), ppc[0], ppc[1]) } else { mk_ctx(input["glyphs"].as_bool().unwrap_or(true)) };
+        Defs { glyphs, images, ctx }
     }
 
     pub fn kind_coq(&self, cell: &Cell) -> String {
